@@ -27,12 +27,12 @@ import (
 type Fault int
 
 const (
-	NoFault Fault = iota
-	FaultError           // ApplyMessage returns an error
-	FaultRevert          // result has VMError "execution reverted"
-	FaultMiscreditPlus   // mint/burn applies amount+1
-	FaultMiscreditMinus  // mint/burn applies amount-1
-	FaultSilentNoop      // call "succeeds" but changes nothing
+	NoFault             Fault = iota
+	FaultError                // ApplyMessage returns an error
+	FaultRevert               // result has VMError "execution reverted"
+	FaultMiscreditPlus        // mint/burn applies amount+1
+	FaultMiscreditMinus       // mint/burn applies amount-1
+	FaultSilentNoop           // call "succeeds" but changes nothing
 )
 
 func (f Fault) String() string {
@@ -283,6 +283,17 @@ func (e *EVM) ApplyMessage(ctx sdk.Context, msg core.Message, tracer vm.EVMLogge
 		return nil, err
 	}
 	return res, nil
+}
+
+// ForeignSwapToNativeLog is a log with the shape of the SwapToNative event, emitted by a contract the token module
+// knows nothing about (any contract can declare such an event): the hook must not act on it.
+func ForeignSwapToNativeLog(contract, from common.Address, to string, amount *big.Int) *ethtypes.Log {
+	ev := contracts.ERC20TokenContract.ABI.Events[contracts.EventSwapToNative]
+	data, err := ev.Inputs.Pack(from, to, amount)
+	if err != nil {
+		panic(err)
+	}
+	return &ethtypes.Log{Address: contract, Topics: []common.Hash{ev.ID}, Data: data}
 }
 
 // SwapToNativeReceipt performs the user-side `swapToNative(to, amount)` of the ERC20 contract: it burns
